@@ -139,18 +139,6 @@ Definition spec_holds (stream : bytes) (maxsize : nat) (tmo stmo : nat)
   end.
 
 (* ---- netstrings --------------------------------------------------------------------- *)
-(* str(n).encode('ascii') *)
-Fixpoint uint_bytes (u : Decimal.uint) : bytes :=
-  match u with
-  | Decimal.Nil => []
-  | Decimal.D0 r => 48%N :: uint_bytes r | Decimal.D1 r => 49%N :: uint_bytes r
-  | Decimal.D2 r => 50%N :: uint_bytes r | Decimal.D3 r => 51%N :: uint_bytes r
-  | Decimal.D4 r => 52%N :: uint_bytes r | Decimal.D5 r => 53%N :: uint_bytes r
-  | Decimal.D6 r => 54%N :: uint_bytes r | Decimal.D7 r => 55%N :: uint_bytes r
-  | Decimal.D8 r => 56%N :: uint_bytes r | Decimal.D9 r => 57%N :: uint_bytes r
-  end.
-Definition dec (n : nat) : bytes := uint_bytes (Nat.to_uint n).
-
 Definition COLON : N := 58%N.
 Definition COMMA : N := 44%N.
 
